@@ -385,6 +385,44 @@ def denote(expr: ast.AST, defs: Defs, keep=("self", "other")):
     return poly(e, resolve)
 
 
+def check_operand_truthiness(ctx):
+    """An operator's truth value is its __len__ -- the number of non-identity factors of a term, the number of terms of a sum --
+    not "is it zero": the constant term 3*I is falsy without being zero. An arithmetic method that branches on the truthiness of
+    its operator operand (`not other`, `if other`) therefore treats constants like 0."""
+    repo = ctx.repo
+    n = 0
+    for cname in ("PauliTerm", "PauliSum"):
+        ci = repo.cls(f"{MOD}:{cname}")
+        for mname, m in ci.methods.items():
+            if not (mname.startswith("__") and mname.strip("_") in ("add", "radd", "sub", "rsub", "mul", "rmul", "truediv", "pow", "iadd", "isub", "imul", "eq")):
+                continue
+            ps = positional_params(m.node)
+            if len(ps) < 2:
+                continue
+            other = ps[1]
+            n += 1
+            atoms = []
+            for x in body_walk(m.node):
+                t = x.test if isinstance(x, (ast.If, ast.IfExp, ast.While, ast.Assert)) else None
+                if t is None:
+                    continue
+                stack = [t]
+                while stack:
+                    e = stack.pop()
+                    if isinstance(e, ast.BoolOp):
+                        stack.extend(e.values)
+                    elif isinstance(e, ast.UnaryOp) and isinstance(e.op, ast.Not):
+                        stack.append(e.operand)
+                    else:
+                        atoms.append(e)
+            hits = [e for e in atoms if isinstance(e, ast.Name) and e.id == other]
+            if hits and mname.strip("_") != "pow":
+                ctx.violation(R3, f"{m.key}:operand-truthiness", f"{cname}.{mname} branches on the truth value of its operand `{other}`: for an operator that is its length (a constant term such as 3*I0 has no non-identity factor and is falsy, the empty sum is falsy), not whether it denotes zero -- `s * PauliTerm('I0', 3.0)` then takes the branch meant for 0", f"{m.module.relpath}:{hits[0].lineno}")
+            else:
+                ctx.ok(R3, f"{m.key}:operand-truthiness", "no branch on the truth value of the operator operand", m)
+    return n
+
+
 def check_linear_forms(ctx):
     repo = ctx.repo
     S, O = p_atom("self"), None
@@ -832,6 +870,10 @@ def check_purity(ctx):
 
 
 def run(ctx):
+    from ..lints import check_caches
+
+    check_caches(ctx, "C03-D8 caches", ['operators._pauli_operators'])
+    check_operand_truthiness(ctx)
     check_tables(ctx)
     check_term_product(ctx)
     check_linear_forms(ctx)
